@@ -21,6 +21,7 @@ def run(tier, seed):
     for k in range(n_small):
         tl.append(C.small_shape_tasks(3, seed + 60 + k, fail=True))
     tl.append(C.bundled_observer_tasks(seed, 150 if tier == "quick" else 5000, "fail"))
+    tl.append(C.wide_fail_tasks(seed, 500 if tier == "quick" else 15000))
     EC.campaign(res, PROP, tl,
                 "executions with random subsets of calls raising fresh exception objects (Exception, KeyError, BaseException "
                 "subclass, SystemExit, KeyboardInterrupt raised in workers), max_errors in {None,0,1,2}, W from 1 to n+1; "
